@@ -54,8 +54,12 @@ func sshKnownHostsKeyAttributes(hosts []string, pub ssh.PublicKey, comment strin
 }
 
 func parseKdfOptions(opts []byte) ([]byte, uint32, error) {
+	if len(opts) < 8 {
+		return nil, 0, fmt.Errorf("invalid KDF options")
+	}
 	saltLen := binary.BigEndian.Uint32(opts[:4])
-	if 4+saltLen+4 != uint32(len(opts)) {
+	// 64-bit arithmetic: 4+saltLen+4 wraps around in 32 bits for salt lengths near 2^32
+	if 4+uint64(saltLen)+4 != uint64(len(opts)) {
 		return nil, 0, fmt.Errorf("invalid KDF options")
 	}
 	rounds := binary.BigEndian.Uint32(opts[4+saltLen:])
